@@ -521,6 +521,30 @@ def c_family(case: dict) -> list:
 DEPTH_FUEL = 5      # deeper than any generated nesting
 
 
+def deep_oracle_term(case: dict, obs: dict, body: str, reason: str, lc: str) -> str:
+    """The behaviour of the scripted real functions in this call as a model oracle (family of every depth + leaf table)."""
+    fam_rows = []
+    for hid, owned, sel in c_family(case):
+        n = (obs['body_records'].get(hid) or {}).get('retries') or 0
+        act = case.get('script', {}).get(hid, {}).get(n, ['ok', None])
+        if act[0] != 'ok':
+            continue     # the parent's own code raised: its sub-handlers are never declared/executed
+        fam_rows.append(f'({cq.cstr(hid)}, ({coz(act[1])}, {cids(owned)}, {cids(sel)}))')
+    return (f"(pg_deep_oracle {cq.cnat(DEPTH_FUEL)} {body} {reason} {lc} {cq.cZ(case['now'])} (pg_table_family {cq.clist(fam_rows)}) "
+            f"{c_oracle(case, False)})")
+
+
+def top_due(case: dict, obs: dict) -> list[str]:
+    """The harness's own reading of "due": selected, not recorded finished, recorded delay elapsed."""
+    out = []
+    for x in obs['selected']:
+        m = obs['body_records'].get(x)
+        if rec_finished(m) or (m and m.get('delayed') is not None and m['delayed'] > case['now']):
+            continue
+        out.append(x)
+    return out
+
+
 def pipeline_term(case: dict, obs: dict, stub: bool) -> tuple[str, str]:
     u = obs['universe']
     body = c_body(obs['body_records'])
@@ -529,15 +553,7 @@ def pipeline_term(case: dict, obs: dict, stub: bool) -> tuple[str, str]:
     if stub:
         orc = c_oracle(case, True)
     else:
-        fam_rows = []
-        for hid, owned, sel in c_family(case):  # type: ignore[misc]
-            n = (obs['body_records'].get(hid) or {}).get('retries') or 0
-            act = case.get('script', {}).get(hid, {}).get(n, ['ok', None])
-            if act[0] != 'ok':
-                continue     # the parent's own code raised: its sub-handlers are never declared/executed
-            fam_rows.append(f'({cq.cstr(hid)}, ({coz(act[1])}, {cids(owned)}, {cids(sel)}))')
-        orc = (f"(pg_deep_oracle {cq.cnat(DEPTH_FUEL)} {body} {reason} {lc} {cq.cZ(case['now'])} (pg_table_family {cq.clist(fam_rows)}) "
-               f"{c_oracle(case, False)})")
+        orc = deep_oracle_term(case, obs, body, reason, lc)
     run = (f"(pg_pipeline {body} {cids(obs['owned'])} {reason} {cids(obs['selected'])} {lc} {cq.cZ(case['now'])} "
            f"{cq.cbool(obs['new_differs'])} {orc})")
     top = [c for c in obs['calls'] if '/' not in c[0]] if not stub else obs['calls']
@@ -545,7 +561,9 @@ def pipeline_term(case: dict, obs: dict, stub: bool) -> tuple[str, str]:
     handler_reason = obs['reason'] in REASONS
     skip = handler_reason and not obs['selected']
     done = None if (not handler_reason or skip) else obs['fho']
-    term = (f"pg_result_eqb {run} {cids(u)} {c_inv(top)} {c_inv(sub)} {cq.clist(c_pact(a) for a in obs['actions'])} "
+    due = (f"list_eqb String.eqb (pg_due {body} {cids(obs['selected'])} {cq.cZ(case['now'])}) {cids(top_due(case, obs))}"
+           if set(obs['selected']) <= set(obs['owned']) else 'true')
+    term = (f"{due} && pg_result_eqb {run} {cids(u)} {c_inv(top)} {c_inv(sub)} {cq.clist(c_pact(a) for a in obs['actions'])} "
             f"{cq.clist(coz(d) for d in obs['delivered'])} {cob(done)} {cq.cbool(skip)} {cq.clist(cq.cZ(d) for d in obs['delays'])} "
             f"{cq.cbool(obs['diffbase'])} {cq.cbool(bool(obs['fho']))} "
             f"{cq.clist(cq.cpair(cq.cstr(p), c_triple(c)) for p, c in obs['extras'])} "
@@ -1155,7 +1173,7 @@ def gen_history(r: random.Random) -> dict:
             'start': r.choice(['new', 'listed-handled']), 'now': r.randrange(1000, 50000) * Q}
 
 
-def run_history(ctx: fw.Ctx, hist: dict, cases: list[fw.Case]) -> None:
+def run_history(ctx: fw.Ctx, hist: dict, cases: list[fw.Case], runs: list[fw.Case] | None = None) -> None:
     settings = make_settings(hist['storage'])
     handlers = copy.deepcopy(hist['handlers'])
     now = hist['now']
@@ -1167,6 +1185,11 @@ def run_history(ctx: fw.Ctx, hist: dict, cases: list[fw.Case]) -> None:
     explained: set[str] = set()
     last_reason = None
     total_calls = 0
+    call_terms: list[str] = []
+    traces: list[list] = []
+    closings = 0
+    owned0: list[str] | None = None
+    last_obs: dict | None = None
     for si, st in enumerate(hist['steps']):
         evs = st['event'].split('+')
         if 'spec' in evs:
@@ -1193,6 +1216,19 @@ def run_history(ctx: fw.Ctx, hist: dict, cases: list[fw.Case]) -> None:
             ctx.fail('the processing step raised', {'layer': 'function-history', 'history': hist, 'step': si}, observed=repr(e), sig='step-raised')
             return
         judge(ctx, {**case, 'history': hist}, obs, False, cases, replay_restart=False)
+        # the same call as an element of a model RUN (pg_run_calls): the model keeps its own object between the calls
+        if owned0 is None:
+            owned0 = list(obs['owned'])
+        if owned0 == list(obs['owned']) and set(obs['selected']) <= set(obs['owned']):
+            lcs = c_lifecycle(case['lifecycle'], None)
+            rs = C_REASON[obs['reason']]
+            call_terms.append(f"(mkPgCall {rs} {cids(obs['selected'])} {lcs} {cq.cZ(now)} {cq.cbool(obs['new_differs'])} "
+                              f"(fun b => {deep_oracle_term(case, obs, 'b', rs, lcs)}))")
+            traces.append([c for c in obs['calls'] if '/' not in c[0]] + [c for c in obs['calls'] if '/' in c[0]])
+            closings += 1 if obs['fho'] else 0
+            last_obs = obs
+        else:
+            runs = None
         # what kopf maintains on the object (C02_refs_closed_preserved): every sub-handler record, of any depth, is listed
         # in the record of its top-level ancestor -- otherwise nothing would ever remove it
         for k, m1 in obs['after'].items():
@@ -1232,6 +1268,16 @@ def run_history(ctx: fw.Ctx, hist: dict, cases: list[fw.Case]) -> None:
         else:
             now += max(Q, min(delays)) if delays else 8 * Q
     ctx.count('history_fn_calls', '0' if not total_calls else '1-3' if total_calls <= 3 else '4-8' if total_calls <= 8 else '>8')
+    if runs is not None and last_obs is not None and owned0 is not None:
+        u = last_obs['universe']
+        term = (f"pg_run_eqb (pg_run_calls {cids(owned0)} nil {cq.clist(call_terms)}) {cids(u)} "
+                f"{cq.clist(c_inv(t) for t in traces)} "
+                f"{cq.clist(cq.copt(None if last_obs['after'].get(k) is None else c_srec(last_obs['after'][k])) for k in u)}")
+        diag = (f"(let run := pg_run_calls {cids(owned0)} nil {cq.clist(call_terms)} in (map pg_trace (fst run), snd run))")
+        runs.append(fw.Case(term, {'layer': 'function-history', 'history': hist, 'observed': {'traces': traces, 'final': last_obs['after']}}, diag=diag))
+        ctx.count('run_calls', str(len(call_terms)) if len(call_terms) < 10 else '>=10')
+        ctx.count('run_closings', str(min(closings, 3)))
+        ctx.count('run_max_depth', str(max([c[0].count('/') for t in traces for c in t] + [0])))
 
 
 def load_corpus() -> list[dict]:
@@ -1257,6 +1303,7 @@ def differential(ctx: fw.Ctx) -> None:
     r = ctx.rng
     pipeline: list[fw.Case] = []
     children: list[fw.Case] = []
+    runs: list[fw.Case] = []
     for case, stub in corpus_cases():
         one_case(ctx, case, stub, pipeline if stub else children)
     for item in load_corpus():
@@ -1269,16 +1316,17 @@ def differential(ctx: fw.Ctx) -> None:
         elif 'function_history' in item:
             hist = item['function_history']
             hist['script'] = int_keys(hist['script'])
-            run_history(ctx, hist, children)
+            run_history(ctx, hist, children, runs)
     for _ in range(ctx.scale(1100, 12000)):
         one_case(ctx, gen_case(r, True), True, pipeline)
     for _ in range(ctx.scale(350, 4000)):
         one_case(ctx, gen_case(r, False), False, children)
     for _ in range(ctx.scale(90, 1000)):
-        run_history(ctx, gen_history(r), children)
+        run_history(ctx, gen_history(r), children, runs)
     algebra = algebra_cases(ctx, ctx.scale(400, 3000))
     ctx.differential('progress_pipeline', HEADER, pipeline, shard=120)
     ctx.differential('progress_children', HEADER, children, shard=120)
+    ctx.differential('progress_runs', HEADER, runs, shard=25)
     ctx.differential('progress_algebra', HEADER, algebra, shard=120)
 
 
